@@ -1,0 +1,19 @@
+//go:build verif
+// +build verif
+
+package tdpos
+
+// VerifMinerScheduling exposes the package-private slot schedule to the
+// verification harness (build tag verif only): it evaluates minerScheduling
+// for a schedule with exactly the given parameters.
+func VerifMinerScheduling(period, blockNum, proposerNum, alternateInterval, termInterval, initTimestamp, timestamp int64) (int64, int64, int64) {
+	s := &tdposSchedule{
+		period:            period,
+		blockNum:          blockNum,
+		proposerNum:       proposerNum,
+		alternateInterval: alternateInterval,
+		termInterval:      termInterval,
+		initTimestamp:     initTimestamp,
+	}
+	return s.minerScheduling(timestamp)
+}
